@@ -18,6 +18,7 @@ def main():
     ap.add_argument("--replay", default=None)
     ap.add_argument("--only", default=None, help="run only obligation families whose name contains this")
     a = ap.parse_args()
+    os.environ["VERIF_TIER"] = a.tier  # the command line wins; helpers read the tier from the environment
     seed = int(os.environ.get("VERIF_SEED", "1"))
     pid = a.prop.upper()
     try:
